@@ -315,6 +315,22 @@ def uf_random(rng, n, maxlen, dom=DOM8):
         yield ("uf-rand", ops)
 
 
+def uf_unions(rng, n, dom=DOM8):
+    """all items added first, then unions through the raw ids handed out by `add` (members that have meanwhile lost a union - non-roots - and classes of
+    different ranks meet here far more often than in the mixed histories), every class checked at the end"""
+    for i in range(n):
+        m = rng.range(4, min(7, len(dom)))
+        sub = dom[:m]
+        d = " ".join(map(str, sub + [sub[-1] + 1]))
+        ops = ["uf mk r"] + [f"uf add r {x}" for x in rng.shuffle(sub)]
+        for _ in range(rng.range(3, 8)):
+            ops.append(f"uf union r {rng.below(m)} {rng.below(m)}")
+            if rng.chance(1, 4): ops.append(f"uf snap r {d}")
+            if rng.chance(1, 8): ops.append(f"uf find r {rng.below(m)}")
+        ops += [f"uf snap r {d}", "uf ok r"]
+        yield ("uf-unions", ops)
+
+
 def scenarios(tier, rng, proof_ok=True):
     big = tier != "quick" or not proof_ok
     yield from tr_exhaustive(4)
@@ -324,6 +340,7 @@ def scenarios(tier, rng, proof_ok=True):
         yield from tr_canonical(6)
     yield from tr_random(rng.fork("tr"), 2000 if big else 250, 60)
     yield from uf_random(rng.fork("uf"), 2000 if big else 250, 60)
+    yield from uf_unions(rng.fork("ufu"), 10000 if big else 1200)
 
 
 def corpus_scenarios():
